@@ -135,12 +135,12 @@ theorem sim_struct2 {f : Nat} (ih : Sim f) : Struct2St (f+1) := by
             refine ⟨g2, ?_⟩
             have hne : consumeEnd (ITok.comma :: toks1) = none := consumeEnd_none_of_isEnd (by simpa using hend)
             have hu' : unnamedBf mi = false := Bool.eq_false_iff.mpr hu
-            have e0 : initList (g+1) root top obj (cursorIn root top p mem) (.comma :: toks1) false fl =
-                initItem g root top obj [p ++ [mem]] toks1 fl := by
-              rw [initList_item _ _ _ _ _ _ _ _ hne]
+            have e0 : Imp (initList (g+1) root top obj (cursorIn root top p mem) (.comma :: toks1) false fl)
+                (initItem g root top obj [p ++ [mem]] toks1 fl) := by
+              refine Imp.of_item hne (Imp.of_eq ?_)
               have hd' : isDesg toks1 = false := by simpa using hd
               simp [skipTok, ok_bind, pathsOf, hd', cursorIn_struct_some hA.sub (nextNamed_here hm hu')]
-            rw [e0]
+            refine e0.trans ?_
             simp only [After] at h1 h2 ⊢
             rw [List.reverse_append, List.reverse_singleton, List.singleton_append, next_snoc] at h1
             have e3 : setAtM (setAtM obj (p ++ [mem]) cm') p c' = setAtM obj p c' := by rw [e1, setAtM_over hA]
@@ -302,7 +302,7 @@ theorem isDesg_not_dot {toks : List ITok} (hd : isDesg toks = true) (hn : ∀ n 
 theorem sim_struct1loop {f : Nat} (ih : Sim f) : Struct1LoopSt (f+1) := by
   intro ms sz fl0 c toks mem first c' rest ho hs h
   obtain ⟨e, cs, rfl, hms⟩ := struct_of_shaped hs
-  have hA := At.root ho hs
+  have hA := fun top => At.root (top := top) ho hs
   rw [structInit1Loop] at h
   cases hce : consumeEnd toks with
   | some rest0 =>
@@ -326,8 +326,8 @@ theorem sim_struct1loop {f : Nat} (ih : Sim f) : Struct1LoopSt (f+1) := by
       simp only at hmty hck hd h
       obtain ⟨mi, hm⟩ := memTy_ok hmty
       have hk : (Init.struct e cs).children[k]? = some ck := getChild_ok hck
-      have hAk := hA.child (childTy_struct hm) hk
-      obtain ⟨hsk, _⟩ := ih.desg (top := false) hAk hd
+      have hAk := fun top => (hA top).child (childTy_struct hm) hk
+      obtain ⟨hsk, _⟩ := ih.desg (top := false) (hAk false) hd
       have hs1 : shaped (.struct ms sz fl0) ((Init.struct e cs).setChild k ck') = true := by
         simp only [Init.setChild, Init.withChildren, Init.children, shaped]
         exact shapedMs_set ms cs k mi mty ck' hms hm hsk
@@ -335,11 +335,12 @@ theorem sim_struct1loop {f : Nat} (ih : Sim f) : Struct1LoopSt (f+1) := by
       refine ⟨hs', fun hE top g fl => ?_⟩
       have he := struct_expr_none hE
       subst he
-      obtain ⟨_, himp1⟩ := ih.desg (top := top) hAk hd
+      obtain ⟨_, himp1⟩ := ih.desg (top := top) (hAk top) hd
       cases g with
       | zero => exact Imp.of_error rfl
       | succ g =>
-        rw [initList_item _ _ _ _ _ _ _ _ hce, hfirst, ok_bind]
+        refine Imp.of_item hce ?_
+        rw [hfirst, ok_bind]
         simp only [pathsOf, isDesg, ↓reduceIte]
         obtain ⟨j, mi', t', hkj, hmj, hcase⟩ := structDesignator_spec name ms 0 k anon hsd
         have hkj' : k = j := by omega
@@ -360,7 +361,7 @@ theorem sim_struct1loop {f : Nat} (ih : Sim f) : Struct1LoopSt (f+1) := by
             rw [desigPaths_dot (p := []) (t := .struct ms sz fl0) d r rfl (by rw [findMember]; exact hfm) rfl]
             obtain ⟨g1, h1⟩ := himp1 g (d+1) fl
             simp only [↓reduceIte] at h1
-            rw [desigPaths_dot (p := [] ++ [k]) d r hAk.sub hfm1 hagg] at h1
+            rw [desigPaths_dot (p := [] ++ [k]) d r (hAk false).sub hfm1 hagg] at h1
             simp only [List.nil_append, After, List.reverse_cons, List.reverse_nil, next_snoc, setAtM_one_struct,
               List.cons_append] at h1 ⊢
             exact h1.trans (himp2 rfl top g1 fl)
@@ -375,8 +376,8 @@ theorem sim_struct1loop {f : Nat} (ih : Sim f) : Struct1LoopSt (f+1) := by
         simp only at h
         obtain ⟨mi, hm⟩ := memTy_ok hmty
         have hk : (Init.struct e cs).children[skipUnnamedBf ms ms.length mem]? = some cm := getChild_ok hcm
-        have hAm := hA.child (childTy_struct hm) hk
-        obtain ⟨hsm, _⟩ := ih.init2 (top := false) hAm hinit
+        have hAm := fun top => (hA top).child (childTy_struct hm) hk
+        obtain ⟨hsm, _⟩ := ih.init2 (top := false) (hAm false) hinit
         have hs1 : shaped (.struct ms sz fl0) ((Init.struct e cs).setChild (skipUnnamedBf ms ms.length mem) cm') = true := by
           simp only [Init.setChild, Init.withChildren, Init.children, shaped]
           exact shapedMs_set ms cs _ mi mty cm' hms hm hsm
@@ -384,11 +385,12 @@ theorem sim_struct1loop {f : Nat} (ih : Sim f) : Struct1LoopSt (f+1) := by
         refine ⟨hs', fun hE top g fl => ?_⟩
         have he := struct_expr_none hE
         subst he
-        obtain ⟨_, himp1⟩ := ih.init2 (top := top) hAm hinit
+        obtain ⟨_, himp1⟩ := ih.init2 (top := top) (hAm top) hinit
         cases g with
         | zero => exact Imp.of_error rfl
         | succ g =>
-          rw [initList_item _ _ _ _ _ _ _ _ hce, hfirst, ok_bind]
+          refine Imp.of_item hce ?_
+          rw [hfirst, ok_bind]
           by_cases hdg : isDesg toks1 = true
           · simp only [pathsOf, hdg, ↓reduceIte]
             obtain ⟨e', he'⟩ := desigPaths_bracket_struct ms sz fl0 top (toks1.length + 1) toks1 (isDesg_not_dot hdg hnd)
@@ -406,7 +408,8 @@ theorem sim_struct1loop {f : Nat} (ih : Sim f) : Struct1LoopSt (f+1) := by
         cases g with
         | zero => exact Imp.of_error rfl
         | succ g =>
-          rw [initList_item _ _ _ _ _ _ _ _ hce, hfirst, ok_bind]
+          refine Imp.of_item hce ?_
+          rw [hfirst, ok_bind]
           by_cases hdg : isDesg toks1 = true
           · simp only [pathsOf, hdg, ↓reduceIte]
             obtain ⟨e', he'⟩ := desigPaths_bracket_struct ms sz fl0 top (toks1.length + 1) toks1 (isDesg_not_dot hdg hnd)
@@ -546,7 +549,7 @@ theorem sim_union1 {f : Nat} (ih : Sim f) : Union1St (f+1) := by
   intro ms sz fl0 c inner c' rest ho hs h
   obtain ⟨e, m, cs, rfl, hms⟩ := union_of_shaped hs
   obtain ⟨k0, hnn, hfn, hne⟩ := subOk_union_named ho
-  have hA := At.root ho hs
+  have hA := fun top => At.root (top := top) ho hs
   unfold unionInit at h
   split at h
   · -- `{ .name …`
@@ -562,8 +565,8 @@ theorem sim_union1 {f : Nat} (ih : Sim f) : Union1St (f+1) := by
     have hk : (Init.union e m cs).children[k]? = some ck := by
       have := getChild_ok hck
       simpa [Init.setMem, Init.children] using this
-    have hAk := hA.child (childTy_union hm) hk
-    obtain ⟨hsk, _⟩ := ih.desg (top := false) hAk hd
+    have hAk := fun top => (hA top).child (childTy_union hm) hk
+    obtain ⟨hsk, _⟩ := ih.desg (top := false) (hAk false) hd
     have hs' : shaped (.union ms sz fl0) (((Init.union e m cs).setMem k).setChild k ck') = true := by
       simp only [Init.setMem, Init.setChild, Init.withChildren, Init.children, shaped, Bool.and_eq_true]
       exact ⟨shapedMs_set ms cs k mi mty ck' hms hm hsk, by simp⟩
@@ -573,11 +576,11 @@ theorem sim_union1 {f : Nat} (ih : Sim f) : Union1St (f+1) := by
       exact ⟨hz.1, hz.2.1⟩
     obtain ⟨he, hmn⟩ := hz'
     subst he hmn
-    obtain ⟨_, himp1⟩ := ih.desg (top := top) hAk hd
+    obtain ⟨_, himp1⟩ := ih.desg (top := top) (hAk top) hd
     cases g with
     | zero => cases hres
     | succ g =>
-      rw [initList_item _ _ _ _ _ _ _ _ (by rfl)] at hres
+      replace hres := initList_item_imp _ _ _ _ _ _ _ _ (by rfl) hres hcl
       simp only [↓reduceIte, pure_bind', pathsOf, isDesg] at hres
       obtain ⟨j, mi', t', hkj, hmj, hcase⟩ := structDesignator_spec name ms 0 k anon hsd
       have hkj' : k = j := by omega
@@ -603,7 +606,7 @@ theorem sim_union1 {f : Nat} (ih : Sim f) : Union1St (f+1) := by
         rw [desigPaths_dot (p := []) (t := .union ms sz fl0) _ r rfl (by rw [findMember]; exact hfm) rfl] at hres
         obtain ⟨g1, h1⟩ := himp1 g ((r.length + 1) + 1) fl
         simp only [↓reduceIte] at h1
-        rw [desigPaths_dot (p := [] ++ [k]) _ r hAk.sub hfm1 hagg] at h1
+        rw [desigPaths_dot (p := [] ++ [k]) _ r (hAk false).sub hfm1 hagg] at h1
         simp only [List.nil_append, List.cons_append] at h1 hres
         exact fin g1 (h1 res hres hcl)
   · -- the first named member
@@ -619,8 +622,8 @@ theorem sim_union1 {f : Nat} (ih : Sim f) : Union1St (f+1) := by
     have hk : (Init.union e m cs).children[k0]? = some ck := by
       have := getChild_ok hck
       simpa [Init.setMem, Init.children] using this
-    have hAk := hA.child (childTy_union hm) hk
-    obtain ⟨hsk, _⟩ := ih.init2 (top := false) hAk hinit
+    have hAk := fun top => (hA top).child (childTy_union hm) hk
+    obtain ⟨hsk, _⟩ := ih.init2 (top := false) (hAk false) hinit
     have hs' : shaped (.union ms sz fl0) (((Init.union e m cs).setMem k0).setChild k0 ck') = true := by
       simp only [Init.setMem, Init.setChild, Init.withChildren, Init.children, shaped, Bool.and_eq_true]
       exact ⟨shapedMs_set ms cs k0 mi mty ck' hms hm hsk, by simp⟩
@@ -630,7 +633,7 @@ theorem sim_union1 {f : Nat} (ih : Sim f) : Union1St (f+1) := by
       exact ⟨hz.1, hz.2.1⟩
     obtain ⟨he, hmn⟩ := hz'
     subst he hmn
-    obtain ⟨_, himp1⟩ := ih.init2 (top := top) hAk hinit
+    obtain ⟨_, himp1⟩ := ih.init2 (top := top) (hAk top) hinit
     rw [firstCursor_union hnn] at hres
     cases g with
     | zero => cases hres
@@ -640,7 +643,7 @@ theorem sim_union1 {f : Nat} (ih : Sim f) : Union1St (f+1) := by
         -- an empty list: the parser's `initializer2` consumed nothing
         rw [initList_end _ _ _ _ _ _ _ _ _ hce] at hres
         cases hres
-        obtain ⟨e1, e2⟩ := init2_nothing hAk.shapedc hAk.ok (consumeEnd_some_isEnd hce) hinit
+        obtain ⟨e1, e2⟩ := init2_nothing (hAk false).shapedc (hAk false).ok (consumeEnd_some_isEnd hce) hinit
         subst e1 e2
         have hrest := strip_comma_rbrace hrb
         rw [hce] at hrest
@@ -649,7 +652,7 @@ theorem sim_union1 {f : Nat} (ih : Sim f) : Union1St (f+1) := by
         refine ⟨?_, rfl, rfl⟩
         simp [defaultMember, hnn, Init.setMem, Init.setChild, Init.withChildren, Init.children, set_same hk]
       | none =>
-        rw [initList_item _ _ _ _ _ _ _ _ hce] at hres
+        replace hres := initList_item_imp _ _ _ _ _ _ _ _ hce hres hcl
         simp only [↓reduceIte, pure_bind'] at hres
         by_cases hdg : isDesg inner = true
         · exfalso
